@@ -8,9 +8,9 @@ that several shards share is the total across those shards."
 Model: `mapReduce f nil groups` (Model.lean) = every node folds its shard results from nil in
 arrival order, the coordinator folds the node results from nil in arrival order.
 -/
-import PV.C17.Lemmas
+import PV.C17.LemmasM
 namespace PV.C17
-open List
+open List K
 
 /-- Generic statement of the property for a reducer satisfying `Laws` on the domain of shard
 results: two executions over the same multiset of per-shard results (any grouping onto nodes,
@@ -93,5 +93,384 @@ def smallerPreFix (vc other : ValCount) : ValCount :=
 
 theorem C17_prefix_smaller_order_dependent_witness :
     smallerPreFix ⟨5, 2⟩ ⟨5, 3⟩ ≠ smallerPreFix ⟨5, 3⟩ ⟨5, 2⟩ := by decide
+
+
+/-! ## Row.Merge — the reducer of every bitmap call (Row, Union, Intersect, Range, …)
+
+`RowWF r` (LemmasM) unfolds to: `(r.map Seg.shard).Pairwise (· < ·)` (segments strictly ascending
+by shard) and `∀ s ∈ r, s.cols.Pairwise (· < ·)` (columns strictly ascending): `C17_rowWF_iff`.
+Per-shard rows produced by a fragment are one segment of ascending columns. -/
+
+theorem C17_rowWF_iff (r : List Seg) :
+    RowWF r ↔ (r.map Seg.shard).Pairwise (· < ·) ∧ ∀ s ∈ r, s.cols.Pairwise (· < ·) := Iff.rfl
+
+/-- `Row.Merge` (as coded, with `mergeSegmentIterator.next` returning `(s1, nil)` for a lone
+segment of the other row) is commutative, associative and has the empty row as identity on
+well-formed rows. -/
+theorem C17_rowMerge_laws : Laws RowWF rowMerge [] := rowMerge_laws
+
+/-- Any two executions (groupings onto nodes, arrival orders) over the same multiset of
+per-shard rows return the same `Row` value. -/
+theorem C17_row (g₁ g₂ : List (List (List Seg))) (p : g₁.flatten.Perm g₂.flatten)
+    (h : ∀ g ∈ g₁, ∀ r ∈ g, RowWF r) :
+    mapReduce rowMerge [] g₁ = mapReduce rowMerge [] g₂ :=
+  C17_placement_order_free rowMerge_laws g₁ g₂ p h
+
+/-- The merged row is well formed, its bits are exactly the union of the bits of all per-shard
+rows and its segments are exactly the shards some per-shard row has a segment for. -/
+theorem C17_row_union (groups : List (List (List Seg))) (h : ∀ g ∈ groups, ∀ r ∈ g, RowWF r) :
+    RowWF (mapReduce rowMerge [] groups) ∧
+    (∀ sh c, (sh, c) ∈ rowBits (mapReduce rowMerge [] groups)
+        ↔ ∃ g ∈ groups, ∃ r ∈ g, (sh, c) ∈ rowBits r) ∧
+    (∀ sh, sh ∈ (mapReduce rowMerge [] groups).map Seg.shard
+        ↔ ∃ g ∈ groups, ∃ r ∈ g, sh ∈ r.map Seg.shard) := by
+  rw [C17_group rowMerge_laws groups h]
+  have hv : ∀ r ∈ groups.flatten, RowWF r := by
+    intro x hx; rcases mem_flatten.mp hx with ⟨g, hg, hxg⟩; exact h g hg x hxg
+  have hex : ∀ (P : List Seg → Prop), (∃ g ∈ groups, ∃ r ∈ g, P r) ↔ ∃ r ∈ groups.flatten, P r := by
+    intro P
+    constructor
+    · rintro ⟨g, hg, r, hr, hp⟩; exact ⟨r, mem_flatten.mpr ⟨g, hg, hr⟩, hp⟩
+    · rintro ⟨r, hr, hp⟩; rcases mem_flatten.mp hr with ⟨g, hg, hrg⟩; exact ⟨g, hg, r, hrg, hp⟩
+  simp only [hex]
+  generalize groups.flatten = l at hv
+  induction l with
+  | nil => exact ⟨rowMerge_laws.dnil, by simp [reduceAll, rowBits], by simp [reduceAll]⟩
+  | cons x xs ih =>
+    have hx := hv x (by simp)
+    have hxs : ∀ y ∈ xs, RowWF y := fun y hy => hv y (by simp [hy])
+    obtain ⟨w, b, s⟩ := ih hxs
+    rw [reduceAll_cons rowMerge_laws x xs hx hxs]
+    refine ⟨rowMerge_laws.closed _ _ hx w, ?_, ?_⟩
+    · intro sh c
+      rw [mem_rowBits_rowMerge hx w, b]; simp
+    · intro sh
+      rw [mem_shards_rowMerge hx w, s]; simp
+
+/-- Strictly sorted rows with the same segments' shards and the same bits are equal (so the
+result is determined by the union alone). -/
+theorem C17_row_ext (r₁ r₂ : List Seg) (h₁ : RowWF r₁) (h₂ : RowWF r₂)
+    (hs : ∀ sh, sh ∈ r₁.map Seg.shard ↔ sh ∈ r₂.map Seg.shard)
+    (hb : ∀ sh c, (sh, c) ∈ rowBits r₁ ↔ (sh, c) ∈ rowBits r₂) : r₁ = r₂ :=
+  rowWF_ext r₁ r₂ h₁ h₂ hs hb
+
+/-- Remote transport: a remote node's row travels as its column list, so segments without bits
+are dropped on the way (`T`; any map that keeps rows well formed and keeps their bits). The bits
+of the coordinator's result are still exactly the union of the bits of all per-shard rows,
+whichever node results went through the transport. -/
+theorem C17_row_bits_transport (T : List Seg → List Seg)
+    (hT : ∀ r, RowWF r → RowWF (T r) ∧ ∀ sh c, (sh, c) ∈ rowBits (T r) ↔ (sh, c) ∈ rowBits r)
+    (remote : List (List Seg) → Bool)
+    (groups : List (List (List Seg))) (h : ∀ g ∈ groups, ∀ r ∈ g, RowWF r) :
+    ∀ sh c, (sh, c) ∈ rowBits (reduceAll rowMerge []
+        (groups.map (fun g => if remote g then T (reduceAll rowMerge [] g) else reduceAll rowMerge [] g)))
+      ↔ ∃ g ∈ groups, ∃ r ∈ g, (sh, c) ∈ rowBits r := by
+  intro sh c
+  have one : ∀ l : List (List Seg), (∀ r ∈ l, RowWF r) →
+      RowWF (reduceAll rowMerge [] l) ∧
+      ((sh, c) ∈ rowBits (reduceAll rowMerge [] l) ↔ ∃ r ∈ l, (sh, c) ∈ rowBits r) := by
+    intro l hl
+    have := C17_row_union [l] (by intro g hg r hr; simp at hg; subst hg; exact hl r hr)
+    have e : mapReduce rowMerge [] [l] = reduceAll rowMerge [] l := by
+      rw [C17_group rowMerge_laws [l] (by intro g hg r hr; simp at hg; subst hg; exact hl r hr)]
+      simp
+    rw [e] at this
+    refine ⟨this.1, ?_⟩
+    rw [this.2.1 sh c]; simp
+  let node := fun (g : List (List Seg)) =>
+    if remote g then T (reduceAll rowMerge [] g) else reduceAll rowMerge [] g
+  have hnode : ∀ g ∈ groups, RowWF (node g) ∧
+      ((sh, c) ∈ rowBits (node g) ↔ ∃ r ∈ g, (sh, c) ∈ rowBits r) := by
+    intro g hg
+    have o := one g (h g hg)
+    simp only [node]
+    split
+    · have t := hT _ o.1
+      exact ⟨t.1, by rw [t.2 sh c]; exact o.2⟩
+    · exact o
+  have outer := one (groups.map node) (by
+    intro r hr; rcases mem_map.mp hr with ⟨g, hg, rfl⟩; exact (hnode g hg).1)
+  rw [outer.2]
+  constructor
+  · rintro ⟨r, hr, hb⟩
+    rcases mem_map.mp hr with ⟨g, hg, rfl⟩
+    rcases (hnode g hg).2.mp hb with ⟨r', hr', hb'⟩
+    exact ⟨g, hg, r', hr', hb'⟩
+  · rintro ⟨g, hg, r, hr, hb⟩
+    exact ⟨node g, mem_map.mpr ⟨g, hg, rfl⟩, (hnode g hg).2.mpr ⟨r, hr, hb⟩⟩
+
+/-- Dropping the segments without bits is such a transport map. -/
+theorem C17_dropEmpty_transport (r : List Seg) (hr : RowWF r) :
+    RowWF (r.filter (fun s => !s.cols.isEmpty)) ∧
+    ∀ sh c, (sh, c) ∈ rowBits (r.filter (fun s => !s.cols.isEmpty)) ↔ (sh, c) ∈ rowBits r := by
+  constructor
+  · refine ⟨?_, fun s hs => hr.2 s (mem_filter.mp hs).1⟩
+    have := hr.1
+    unfold SortedK at *
+    exact this.sublist ((filter_sublist).map _)
+  · intro sh c
+    unfold rowBits
+    simp only [mem_flatMap, mem_map, mem_filter, Prod.mk.injEq]
+    constructor
+    · rintro ⟨s, ⟨hs, _⟩, x⟩; exact ⟨s, hs, x⟩
+    · rintro ⟨s, hs, c', hc', e⟩
+      refine ⟨s, ⟨hs, ?_⟩, c', hc', e⟩
+      cases hcs : s.cols with
+      | nil => rw [hcs] at hc'; cases hc'
+      | cons _ _ => rfl
+
+example : RowWF [⟨0, [1, 5]⟩, ⟨2, []⟩, ⟨3, [7]⟩] ∧
+    mapReduce rowMerge [] [[[⟨3, [7]⟩], [⟨0, [5]⟩, ⟨3, [2, 9]⟩]], [[⟨0, [1, 5]⟩]]]
+      = [⟨0, [1, 5]⟩, ⟨3, [2, 7, 9]⟩] := by
+  refine ⟨?_, by decide⟩
+  rw [C17_rowWF_iff]; decide
+
+/-! ## Rows: RowIDs.merge with limit -/
+
+/-- Rows: whatever the grouping and the arrival order, the result is the `lim` smallest distinct
+row ids reported by any shard. -/
+theorem C17_rowids (lim : Nat) (groups : List (List (List Nat)))
+    (h : ∀ g ∈ groups, ∀ x ∈ g, x.Pairwise (· < ·)) :
+    mapReduce (fun a b => rowIDsMerge a b lim) [] groups = Spec.rowIDs lim groups.flatten := by
+  have hf : (fun a b => rowIDsMerge a b lim) = kmergeLim (α := Nat) id keepB lim := by
+    funext a b; exact rowIDsMerge_eq lim a b
+  have hm := mapReduce_kmergeLim (key := (id : Nat → Nat)) (comb := keepB) lim groups id id
+    (fun _ _ _ _ => rfl)
+  simp only [map_id_fun, map_id, id_eq] at hm
+  have hid : groups.map (fun g => g) = groups := map_id' groups
+  rw [hf]
+  rw [show map (fun x => x) groups = groups from map_id' groups] at hm
+  rw [hm]
+  unfold Spec.rowIDs
+  congr 1
+  rw [C17_group nmerge_laws groups h]
+  have hins : (fun (acc : List Nat) x => Spec.insertAsc x acc) = (fun acc e => nmerge acc [e]) := by
+    funext acc x; exact insertAsc_eq x acc
+  rw [hins]
+  symm
+  apply foldl_insert_flatten natStrictTotal keepB_laws
+  intro l hl
+  rcases mem_flatten.mp hl with ⟨g, hg, hlg⟩
+  exact (asc_DL l).mp (h g hg l hlg)
+
+theorem C17_rowids_order_free (lim : Nat) (g₁ g₂ : List (List (List Nat)))
+    (p : g₁.flatten.Perm g₂.flatten) (h : ∀ g ∈ g₁, ∀ x ∈ g, x.Pairwise (· < ·)) :
+    mapReduce (fun a b => rowIDsMerge a b lim) [] g₁
+      = mapReduce (fun a b => rowIDsMerge a b lim) [] g₂ := by
+  have h2 : ∀ g ∈ g₂, ∀ x ∈ g, x.Pairwise (· < ·) := by
+    intro g hg x hx
+    have : x ∈ g₁.flatten := p.mem_iff.mpr (mem_flatten.mpr ⟨g, hg, hx⟩)
+    rcases mem_flatten.mp this with ⟨g', hg', hx'⟩
+    exact h g' hg' x hx'
+  rw [C17_rowids lim g₁ h, C17_rowids lim g₂ h2]
+  unfold Spec.rowIDs
+  congr 1
+  have hins : (fun (acc : List Nat) x => Spec.insertAsc x acc) = (fun acc e => nmerge acc [e]) := by
+    funext acc x; exact insertAsc_eq x acc
+  have d1 : ∀ l ∈ g₁.flatten, DL (α := Nat) id (fun _ => True) l := by
+    intro l hl; rcases mem_flatten.mp hl with ⟨g, hg, hlg⟩; exact (asc_DL l).mp (h g hg l hlg)
+  have d2 : ∀ l ∈ g₂.flatten, DL (α := Nat) id (fun _ => True) l := by
+    intro l hl; rcases mem_flatten.mp hl with ⟨g, hg, hlg⟩; exact (asc_DL l).mp (h2 g hg l hlg)
+  rw [hins, foldl_insert_flatten natStrictTotal keepB_laws _ d1,
+    foldl_insert_flatten natStrictTotal keepB_laws _ d2]
+  exact C17_fold_perm (kmerge_laws natStrictTotal keepB_laws) p d1
+
+example : (∀ g ∈ [[[1, 4, 6], [2, 4]], [[0, 6, 9]]], ∀ x ∈ g, x.Pairwise (· < ·)) ∧
+    mapReduce (fun a b => rowIDsMerge a b 4) [] [[[1, 4, 6], [2, 4]], [[0, 6, 9]]] = [0, 1, 2, 4] := by
+  decide
+
+/-! ## GroupBy: mergeGroupCounts with limit
+
+`GAsc x`: the shard result is strictly ascending by group (lexicographic order of the row ids);
+`GLen n x`: every group has `n` row ids (one per child `Rows` call of the query). -/
+
+theorem C17_GAsc_iff (x : List GroupCount) : GAsc x ↔ (x.map GroupCount.group).Pairwise (· < ·) := Iff.rfl
+
+/-- GroupBy: whatever the grouping and the arrival order, the result is the first `lim` groups of
+the per-group totals over all shard results. -/
+theorem C17_groupcounts (n lim : Nat) (groups : List (List (List GroupCount)))
+    (h : ∀ g ∈ groups, ∀ x ∈ g, GAsc x ∧ GLen n x) :
+    mapReduce (fun a b => mergeGroupCounts a b lim) [] groups
+      = Spec.groupCounts lim groups.flatten := by
+  rw [mapReduce_congr (GLen n) (fun a b => mergeGroupCounts a b lim)
+    (kmergeLim GroupCount.group addGC lim) [] (by intro x hx; cases hx)
+    (GLen_kmergeLim n lim) (fun a b ha hb => mergeGroupCounts_eq n lim a b ha hb) groups
+    (fun g hg x hx => (h g hg x hx).2)]
+  have hm := mapReduce_kmergeLim (key := GroupCount.group) (comb := addGC) lim groups id id
+    (fun _ _ _ _ => rfl)
+  simp only [map_id_fun, map_id, id_eq] at hm
+  rw [show map (fun x => x) groups = groups from map_id' groups] at hm
+  rw [hm]
+  unfold Spec.groupCounts
+  congr 1
+  have hd : ∀ g ∈ groups, ∀ x ∈ g, DL GroupCount.group (fun _ => True) x :=
+    fun g hg x hx => ⟨(h g hg x hx).1, fun _ _ => trivial⟩
+  rw [C17_group (kmerge_laws listNatStrictTotal addGC_laws) groups hd]
+  have hins : (fun (acc : List GroupCount) x => Spec.insertGC x acc) = (fun acc e => gmerge acc [e]) := by
+    funext acc x; exact insertGC_eq x acc
+  rw [hins]
+  symm
+  apply foldl_insert_flatten listNatStrictTotal addGC_laws
+  intro l hl
+  rcases mem_flatten.mp hl with ⟨g, hg, hlg⟩
+  exact hd g hg l hlg
+
+/-- GroupBy with per-shard truncation: when every shard returns the first `lim` groups of its
+full ascending list, the result is still the first `lim` groups of the totals over the FULL
+shard lists — the counts of the groups returned are exact. -/
+theorem C17_groupcounts_prefix (n lim : Nat) (full : List (List (List GroupCount)))
+    (h : ∀ g ∈ full, ∀ x ∈ g, GAsc x ∧ GLen n x) :
+    mapReduce (fun a b => mergeGroupCounts a b lim) [] (full.map (·.map (·.take lim)))
+      = Spec.groupCounts lim full.flatten := by
+  rw [mapReduce_congr (GLen n) (fun a b => mergeGroupCounts a b lim)
+    (kmergeLim GroupCount.group addGC lim) [] (by intro x hx; cases hx)
+    (GLen_kmergeLim n lim) (fun a b ha hb => mergeGroupCounts_eq n lim a b ha hb) _
+    (by
+      intro g hg x hx
+      rcases mem_map.mp hg with ⟨g', hg', rfl⟩
+      rcases mem_map.mp hx with ⟨x', hx', rfl⟩
+      intro z hz
+      exact (h g' hg' x' hx').2 z (mem_of_mem_take hz))]
+  have hm := mapReduce_kmergeLim (key := GroupCount.group) (comb := addGC) lim full
+    (fun x => x.take lim) id (by intro _ _ _ _; simp [take_take])
+  simp only [map_id_fun, map_id, id_eq] at hm
+  rw [show map (fun x => x) full = full from map_id' full] at hm
+  rw [hm]
+  unfold Spec.groupCounts
+  congr 1
+  have hd : ∀ g ∈ full, ∀ x ∈ g, DL GroupCount.group (fun _ => True) x :=
+    fun g hg x hx => ⟨(h g hg x hx).1, fun _ _ => trivial⟩
+  rw [C17_group (kmerge_laws listNatStrictTotal addGC_laws) full hd]
+  have hins : (fun (acc : List GroupCount) x => Spec.insertGC x acc) = (fun acc e => gmerge acc [e]) := by
+    funext acc x; exact insertGC_eq x acc
+  rw [hins]
+  symm
+  apply foldl_insert_flatten listNatStrictTotal addGC_laws
+  intro l hl
+  rcases mem_flatten.mp hl with ⟨g, hg, hlg⟩
+  exact hd g hg l hlg
+
+theorem C17_groupcounts_order_free (n lim : Nat) (g₁ g₂ : List (List (List GroupCount)))
+    (p : g₁.flatten.Perm g₂.flatten) (h : ∀ g ∈ g₁, ∀ x ∈ g, GAsc x ∧ GLen n x) :
+    mapReduce (fun a b => mergeGroupCounts a b lim) [] g₁
+      = mapReduce (fun a b => mergeGroupCounts a b lim) [] g₂ := by
+  have h2 : ∀ g ∈ g₂, ∀ x ∈ g, GAsc x ∧ GLen n x := by
+    intro g hg x hx
+    have : x ∈ g₁.flatten := p.mem_iff.mpr (mem_flatten.mpr ⟨g, hg, hx⟩)
+    rcases mem_flatten.mp this with ⟨g', hg', hx'⟩
+    exact h g' hg' x hx'
+  rw [C17_groupcounts n lim g₁ h, C17_groupcounts n lim g₂ h2]
+  unfold Spec.groupCounts
+  congr 1
+  have hins : (fun (acc : List GroupCount) x => Spec.insertGC x acc) = (fun acc e => gmerge acc [e]) := by
+    funext acc x; exact insertGC_eq x acc
+  have d1 : ∀ l ∈ g₁.flatten, DL GroupCount.group (fun _ => True) l := by
+    intro l hl; rcases mem_flatten.mp hl with ⟨g, hg, hlg⟩; exact ⟨(h g hg l hlg).1, fun _ _ => trivial⟩
+  have d2 : ∀ l ∈ g₂.flatten, DL GroupCount.group (fun _ => True) l := by
+    intro l hl; rcases mem_flatten.mp hl with ⟨g, hg, hlg⟩; exact ⟨(h2 g hg l hlg).1, fun _ _ => trivial⟩
+  rw [hins, foldl_insert_flatten listNatStrictTotal addGC_laws _ d1,
+    foldl_insert_flatten listNatStrictTotal addGC_laws _ d2]
+  exact C17_fold_perm (kmerge_laws listNatStrictTotal addGC_laws) p d1
+
+example : (∀ g ∈ [[[(⟨[0, 1], 2⟩ : GroupCount), ⟨[1, 0], 1⟩]], [[⟨[0, 1], 3⟩, ⟨[0, 2], 1⟩]]],
+      ∀ x ∈ g, GAsc x ∧ GLen 2 x) ∧
+    mapReduce (fun a b => mergeGroupCounts a b 2) []
+      [[[(⟨[0, 1], 2⟩ : GroupCount), ⟨[1, 0], 1⟩]], [[⟨[0, 1], 3⟩, ⟨[0, 2], 1⟩]]]
+      = [⟨[0, 1], 5⟩, ⟨[0, 2], 1⟩] := by
+  refine ⟨?_, by decide⟩
+  simp only [C17_GAsc_iff, GLen]
+  decide
+
+/-! ## TopN: Pairs.Add (result as a map; the order of the Go slice is map-iteration order) -/
+
+/-- TopN merge: whatever the grouping and the arrival order, the merged map is the map of total
+counts per id over all shard results. -/
+theorem C17_pairs (groups : List (List (List Pair))) :
+    mapReduce pairsAdd [] groups = Spec.pairs groups.flatten := by
+  rw [mapReduce_pairsAdd, spec_pairs_eq]
+
+theorem C17_pairs_order_free (g₁ g₂ : List (List (List Pair))) (p : g₁.flatten.Perm g₂.flatten) :
+    mapReduce pairsAdd [] g₁ = mapReduce pairsAdd [] g₂ := by
+  rw [mapReduce_pairsAdd, mapReduce_pairsAdd]
+  congr 1
+  have key : ∀ l : List (Nat × Nat), l.foldl ins []
+      = reduceAll pmerge [] (l.map (fun x => [x])) := by
+    intro l; unfold reduceAll; rw [foldl_map]; rfl
+  rw [key, key]
+  apply C17_fold_perm (kmerge_laws natStrictTotal addKV_laws) ((p.flatten.map toKV).map _)
+  intro x hx
+  rcases mem_map.mp hx with ⟨e, _, rfl⟩
+  exact DL_singleton trivial
+
+/-- The merged map holds exactly the ids some shard result lists, each once (ids strictly
+ascending in the model), and sends every id to the SUM of the counts over all shard results. -/
+theorem C17_pairs_sum (groups : List (List (List Pair))) :
+    ((mapReduce pairsAdd [] groups).map (·.id)).Pairwise (· < ·) ∧
+    (∀ k, k ∈ (mapReduce pairsAdd [] groups).map (·.id) ↔ ∃ p ∈ groups.flatten.flatten, p.id = k) ∧
+    (∀ p ∈ mapReduce pairsAdd [] groups, p.count = Spec.pairTotal p.id groups.flatten.flatten) := by
+  rw [mapReduce_pairsAdd]
+  generalize groups.flatten.flatten = flat
+  have hM := mapOK_foldl_ins [] (flat.map toKV) mapOK_nil
+  have hL := fun k => look_foldl_ins (flat.map toKV) [] mapOK_nil k
+  generalize (flat.map toKV).foldl ins [] = M at hM hL
+  have hkt := fun k => kvTotal_map_toKV k flat
+  refine ⟨?_, ?_, ?_⟩
+  · have := hM.1
+    unfold SortedK at this
+    simpa [map_map, Function.comp_def, toPair] using this
+  · intro k
+    have h2 := (hL k).2
+    simp only [look, Option.isSome_none, false_or, Bool.false_eq_true] at h2
+    constructor
+    · intro hk
+      rcases mem_map.mp hk with ⟨p, hp, rfl⟩
+      rcases mem_map.mp hp with ⟨e, he, rfl⟩
+      have : (look (α := Nat × Nat) Prod.fst e.1 M).isSome := by
+        rw [look_of_mem natStrictTotal hM.1 he]; rfl
+      rcases h2.mp this with ⟨e', he', hk'⟩
+      rcases mem_map.mp he' with ⟨p', hp', rfl⟩
+      exact ⟨p', hp', hk'⟩
+    · rintro ⟨p, hp, rfl⟩
+      have := h2.mpr ⟨toKV p, mem_map.mpr ⟨p, hp, rfl⟩, rfl⟩
+      cases hl : look (α := Nat × Nat) Prod.fst p.id M with
+      | none => rw [hl] at this; cases this
+      | some e =>
+        have := look_some hl
+        exact mem_map.mpr ⟨toPair e, mem_map.mpr ⟨e, this.1, rfl⟩, this.2⟩
+  · intro p hp
+    rcases mem_map.mp hp with ⟨e, he, rfl⟩
+    have h1 := (hL e.1).1
+    rw [look_of_mem natStrictTotal hM.1 he] at h1
+    simp only [oval, Option.elim, look] at h1
+    rw [← hkt]
+    simpa [toPair] using h1
+
+example : mapReduce pairsAdd [] [[[⟨1, 2⟩, ⟨3, 1⟩], [⟨3, 4⟩]], [[⟨0, 1⟩, ⟨1, 1⟩]]]
+    = [⟨0, 1⟩, ⟨1, 3⟩, ⟨3, 5⟩] := by decide
+
+/-! ## bool reducer (ClearRow / Store return value) -/
+
+theorem C17_bool_laws : Laws (fun _ : Option Bool => True) boolReduce none where
+  closed := fun _ _ _ _ => trivial
+  dnil := trivial
+  comm := by intro a b _ _; rcases a with _ | _ | _ <;> rcases b with _ | _ | _ <;> rfl
+  assoc := by
+    intro a b c _ _ _
+    rcases a with _ | _ | _ <;> rcases b with _ | _ | _ <;> rcases c with _ | _ | _ <;> rfl
+  idl := by intro a _; rcases a with _ | _ | _ <;> rfl
+
+theorem C17_bool (g₁ g₂ : List (List (Option Bool))) (p : g₁.flatten.Perm g₂.flatten) :
+    mapReduce boolReduce none g₁ = mapReduce boolReduce none g₂ :=
+  C17_placement_order_free C17_bool_laws g₁ g₂ p (fun _ _ _ _ => trivial)
+
+/-- The bool result is true iff some shard reported true (nil without any result). -/
+theorem C17_bool_spec (groups : List (List (Option Bool))) :
+    mapReduce boolReduce none groups = Spec.boolOr groups.flatten := by
+  rw [C17_group C17_bool_laws groups (fun _ _ _ _ => trivial)]
+  generalize groups.flatten = l
+  induction l with
+  | nil => rfl
+  | cons x xs ih =>
+    rw [reduceAll_cons C17_bool_laws x xs trivial (fun _ _ => trivial), ih, boolOr_cons]
 
 end PV.C17
